@@ -404,8 +404,19 @@ def check(pid, tier):
     for o in real:
         if o.status == "discharged":
             backends[o.backend] = backends.get(o.backend, 0) + 1
+    # the trusted base of THIS property's proofs: the axioms, plus every contract the verified bodies called that is
+    # not itself proved (assumed outright, or only checked at run time), plus assumed clauses of proved contracts
+    used = {t for r in reports for t in getattr(r, "used_contracts", [])} | {c.target for c in world.contracts.values() if pid in c.props}
+    ucs = [c for c in list(world.contracts.values()) + list(getattr(world, "user_effects", {}).values()) if c.target in used]
     trusted = [f"{a.name}: {a.trusted}" for a in world.axioms] + \
-              [f"assumed contract {c.target}: {c.trusted}" for c in world.contracts.values() if c.trusted and pid in c.props]
+              [f"assumed contract {c.target}: {c.trusted}" for c in ucs if c.trusted] + \
+              [f"assumed contract {c.target}: bounded only - its clauses are evaluated around the real function at run time (layer B), not proved; callers under proof rely on them"
+               for c in ucs if getattr(c, "bounded_only", False)] + \
+              [f"assumed clause of {c.target}: {lab[7:]} (relied on by verified callers, not proved for this body; checked at run time by the bounded layer)"
+               for c in ucs if not c.trusted for lab, _ in c.ensures if lab.startswith("assume:")] + \
+              [f"assumed exceptional clause of {c.target}: on {r.exc}: {e[7:]}"
+               for c in ucs if not c.trusted for r in c.raises for e in r.ensures if e.startswith("assume:")] + \
+              (["model:user_action: what a user action may do (A-user-action)"] if any(getattr(world.contracts.get(t), "user_effect", None) for t in used if t in world.contracts) else [])
     samples = [{"obligation": o.oid, "status": o.status, "backend": o.backend, "time_s": round(o.time_s, 2)} for o in real[:6]]
     bsum = [{k: v for k, v in b.items() if k != "violations"} | {"violations": len(b["violations"])} for b in bounded]
     coverage = {
